@@ -734,6 +734,10 @@ func registerIOIntercepts() {
 			if !ex.vfs.exists(p) {
 				return ex.pathErr("notexist")
 			}
+			if n := ex.vfs.nodes[p]; n != nil && n.dir && len(ex.vfs.children(p)) > 0 {
+				// os.Remove is not recursive: a directory that still has entries stays (ENOTEMPTY)
+				return ex.pathErr("notempty")
+			}
 			ex.crashPoint("remove " + p)
 			delete(ex.vfs.nodes, p)
 			ex.vfs.logOp("remove " + p)
